@@ -46,6 +46,14 @@ func (fr *frame) binop(op token.Token, t types.Type, x, y Value) Value {
 			}
 		}
 	case KFloat:
+		if x.R != nil || y.R != nil {
+			// opaque float (derived from symbolic integers): arithmetic stays opaque
+			switch op {
+			case token.ADD, token.SUB, token.MUL, token.QUO:
+				return Value{K: KFloat, W: x.W, R: opaqueFloat{}}
+			}
+			p.unsupported("comparison of an opaque (symbolic) float")
+		}
 		a, b := math.Float64frombits(x.N), math.Float64frombits(y.N)
 		var r float64
 		switch op {
@@ -586,6 +594,9 @@ func (fr *frame) conv(dst, src types.Type, x Value) Value {
 				}
 				return p.norm(mkTermInt(p.ts.ZExt(t, w)))
 			case KFloat:
+				if x.R != nil {
+					p.unsupported("opaque float to integer conversion")
+				}
 				f := math.Float64frombits(x.N)
 				if ud.Info()&types.IsUnsigned != 0 {
 					return mkInt(w, uint64(f))
@@ -606,7 +617,7 @@ func (fr *frame) conv(dst, src types.Type, x Value) Value {
 			switch x.K {
 			case KInt:
 				if x.R != nil {
-					x = mkInt(x.W, p.concretize(x.term()))
+					return Value{K: KFloat, W: fw, R: opaqueFloat{}}
 				}
 				var f float64
 				if isSigned(src) {
@@ -619,6 +630,9 @@ func (fr *frame) conv(dst, src types.Type, x Value) Value {
 				}
 				return Value{K: KFloat, W: fw, N: math.Float64bits(f)}
 			case KFloat:
+				if x.R != nil {
+					return Value{K: KFloat, W: fw, R: opaqueFloat{}}
+				}
 				f := math.Float64frombits(x.N)
 				if fw == 32 {
 					f = float64(float32(f))
@@ -721,3 +735,7 @@ func (fr *frame) stableSite() string {
 	}
 	return fr.fn.String() + ":" + stableInstr(fr.cur)
 }
+
+// opaqueFloat marks a float whose value derives from symbolic integers; only
+// arithmetic is allowed on it (no comparison, no conversion back to integers).
+type opaqueFloat struct{}
